@@ -1178,6 +1178,82 @@ where
         self.follow_ups(y, x)?;
         Some(())
     }
+    /// f62: inputs chosen by the PATH the binary extended GCD of spec/field/Mont62.tla (Inv) takes on them.
+    /// The accumulator `a` of that algorithm ends as a small multiple of M; how large (in particular
+    /// whether it exceeds 64 bits before the final reduction, which happens for about 8 in 10^6 elements)
+    /// depends on the value alone, so boundary-biased operands do not reach these classes.  The shadow run
+    /// below is the specification's algorithm at full width; it only SELECTS inputs, the results of the
+    /// real inv / div are judged by TraceFieldOps like every other event.
+    fn dir_f62_inv_path(&mut self, idx: u64) -> Option<()> {
+        self.dir = Some("f62-inv-path");
+        const M: u128 = 4611624995532046337;
+        // (final accumulator before reduction, largest d seen)
+        fn shadow(x: u64) -> (u128, u128) {
+            if x == 0 || x as u128 == M {
+                return (0, 0);
+            }
+            let mut a: u128 = 0;
+            let mut u: u128 = if x & 1 == 1 { x as u128 } else { x as u128 + M };
+            let mut v: u128 = M;
+            let mut d: u128 = M - 1;
+            let mut dmax = d;
+            let mut fuel = 1000;
+            while v != 1 && fuel > 0 {
+                fuel -= 1;
+                while v < u {
+                    u -= v;
+                    d += a;
+                    while u & 1 == 0 {
+                        if d & 1 == 1 {
+                            d += M;
+                        }
+                        u >>= 1;
+                        d >>= 1;
+                    }
+                    dmax = dmax.max(d);
+                }
+                v -= u;
+                a += d;
+                while v & 1 == 0 {
+                    if a & 1 == 1 {
+                        a += M;
+                    }
+                    v >>= 1;
+                    a >>= 1;
+                }
+            }
+            (a, dmax)
+        }
+        let class = idx % 6;
+        let want = |a: u128, dmax: u128| -> bool {
+            match class {
+                0 | 1 => a >= 1u128 << 64,                 // the accumulator does not fit 64 bits
+                2 => a >= 1u128 << 63 && a < 1u128 << 64,  // top bit of a 64-bit word set
+                3 => a > 4 * M,                            // the largest multiples of M
+                4 => a <= M,                               // no final reduction at all
+                _ => dmax >= 1u128 << 64,                  // the other accumulator leaves 64 bits
+            }
+        };
+        let mut found = None;
+        for _ in 0..6_000_000u32 {
+            let x = self.rng.below(M as u64 - 1) + 1;
+            let (a, dmax) = shadow(x);
+            if want(a, dmax) {
+                found = Some(x);
+                break;
+            }
+        }
+        let x = found?; // class not reachable (e.g. the other accumulator never leaves 64 bits): nothing recorded
+        let e = self.with_mont(0, &Big::from_u64(x), &Big::from_u64(3))?;
+        let r = self.unary("inv", e)?;
+        self.eq_canon(r)?;
+        let c = self.gen_elem()?;
+        let q = self.binary("div", c, e)?;
+        self.eq_canon(q)?;
+        let back = self.binary("mul", q, e)?;
+        self.eq_canon(back)?;
+        Some(())
+    }
     /// f62: zero represented as M (a + (-a), and products with it) fed to inv / div / exp
     fn dir_f62_zero(&mut self, idx: u64) -> Option<()> {
         self.dir = Some("f62-zero-as-M");
@@ -1234,6 +1310,7 @@ where
                 ("f64", 0..=11) => self.dir_f64_double(sc),
                 ("f64", 12..=17) if E::D == 1 => self.dir_f64_mul_small(sc - 12),
                 ("f62", 0..=3) => self.dir_f62_zero(sc),
+                ("f62", 4..=9) => self.dir_f62_inv_path(sc - 4),
                 (_, 18) => self.dir_exp(),
                 (_, 19) if E::D > 1 && !(self.quick && (E::D == 3 || self.fs.name == "f128")) => self.sc_frob(),
                 (_, 20..=23) => self.sc_zero(sc),
